@@ -259,6 +259,75 @@ def check_reads_between_handle_and_fill(rep):
                         cls.__name__, hname, uname, got['der'][:80], want['der'][:80]), case)
 
 
+def check_template_clones(rep):
+    """a record filled in part (OPTIONAL / DEFAULT members first, a mandatory one still missing) used as a template: its copy by
+    value - clone / subtype with cloneValueFlag - is completed afterwards and encodes like the value built directly; also with
+    the partly filled record nested in another one"""
+    from pyasn1.type import namedtype, tag as tg_
+
+    def schema(cls):
+        return cls(componentType=namedtype.NamedTypes(
+            namedtype.NamedType('id', univ.Integer()),
+            namedtype.OptionalNamedType('name', univ.OctetString()),
+            namedtype.DefaultedNamedType('level', univ.Integer(1).subtype(implicitTag=tg_.Tag(tg_.tagClassContext, tg_.tagFormatSimple, 0)))))
+    copies = {'clone': lambda o: o.clone(cloneValueFlag=True),
+              'subtype': lambda o: o.subtype(cloneValueFlag=True),
+              'clone-of-clone': lambda o: o.clone(cloneValueFlag=True).clone(cloneValueFlag=True)}
+    for cls in (univ.Sequence, univ.Set):
+        direct = schema(cls)
+        direct['id'] = 7
+        direct['name'] = b'ab'
+        direct['level'] = 5
+        want = {'der': enc(der_encoder, direct), 'cer': enc(cer_encoder, direct)}
+        for cname, cp in sorted(copies.items()):
+            for prefill in (('name',), ('level',), ('name', 'level'), ()):
+                rep.evaluations += 1
+                rep.count('template-clones')
+                case = {'kind': 'template-clone', 'container': cls.__name__, 'copy': cname, 'prefilled': list(prefill)}
+                try:
+                    t = schema(cls)
+                    if 'name' in prefill:
+                        t['name'] = b'ab'
+                    if 'level' in prefill:
+                        t['level'] = 5
+                    r = cp(t)
+                    r['id'] = 7
+                    if 'name' not in prefill:
+                        r['name'] = b'ab'
+                    if 'level' not in prefill:
+                        r['level'] = 5
+                    got = {'der': enc(der_encoder, r), 'cer': enc(cer_encoder, r)}
+                except Exception as ex:  # noqa
+                    rep.fail('template-clone-' + codec.classify(ex), '%s of a partly filled %s: %r' % (cname, cls.__name__, ex), case)
+                    continue
+                if got != want:
+                    rep.fail('bytes-differ-template-clone', '%s completed after %s of the template (prefilled %s) encodes as %s, built directly %s' % (
+                        cls.__name__, cname, list(prefill), got['der'], want['der']), case)
+        # nested: the partly filled record sits in an outer one when the outer one is copied
+        outer_s = univ.Sequence(componentType=namedtype.NamedTypes(namedtype.NamedType('n', univ.Integer()), namedtype.NamedType('inner', schema(cls))))
+        d2 = outer_s.clone()
+        d2['n'] = 1
+        d2['inner']['id'] = 7
+        d2['inner']['name'] = b'ab'
+        want2 = enc(der_encoder, d2)
+        for cname, cp in sorted(copies.items()):
+            rep.evaluations += 1
+            rep.count('template-clones')
+            case = {'kind': 'template-clone-nested', 'container': cls.__name__, 'copy': cname}
+            try:
+                o = outer_s.clone()
+                o['n'] = 1
+                o['inner']['name'] = b'ab'
+                o2 = cp(o)
+                o2['inner']['id'] = 7
+                got2 = enc(der_encoder, o2)
+            except Exception as ex:  # noqa
+                rep.fail('template-clone-' + codec.classify(ex), 'nested, %s: %r' % (cname, ex), case)
+                continue
+            if got2 != want2:
+                rep.fail('bytes-differ-template-clone', 'nested %s: completed after %s encodes as %s, built directly %s' % (cls.__name__, cname, got2, want2), case)
+
+
 def derived_scalar(t, v, schema):
     """the scalar held by an object of a *derived, more constrained* subtype of the declared type (which a
     container accepts wherever it accepts the declared type): same abstract value, another route"""
@@ -652,6 +721,8 @@ def run(rep, tier, seed):
     check_default_scalar_initialisers(rep)
     rep.case('reads between handle and fill', nontrivial=True)
     check_reads_between_handle_and_fill(rep)
+    rep.case('template clones', nontrivial=True)
+    check_template_clones(rep)
     for ts, vs in ROUTE_CORPUS:
         t = sexp_types.ty_of_sexp(gen.parse_sexps(ts)[0])
         v = gen.val_of_sexp(gen.parse_sexps(vs)[0])
